@@ -204,14 +204,86 @@ func c09Workload(r *Run, rounds int, shareData bool, mutateFiles bool) (calls in
 		close(start)
 		cw.Wait()
 	}
+	// cold starts of a FILLED base: the base template is filled once, at start-up, with data that is not a plain map - a struct, a pointer
+	// to a struct, a typed map - and then used by every goroutine at once, untouched before: Load + Render, New + RenderString, Get
+	for round := 0; round < coldRounds+3; round++ {
+		mk := c09TypedData[round%len(c09TypedData)]
+		page := []string{"attrs", "loop", "chain", "filters"}[round%4] + ".vuego"
+		alone := func(kind int) (string, bool) {
+			return c09FilledDo(c10Engine(&lockedFS{m: c10FS()}).Fill(mk()), kind, page)
+		}
+		var wants [3][2]any
+		for k := 0; k < 3; k++ {
+			o, e := alone(k)
+			wants[k] = [2]any{o, e}
+		}
+		filled := c10Engine(&lockedFS{m: c10FS()}).Fill(mk())
+		start := make(chan struct{})
+		var cw sync.WaitGroup
+		for g := 0; g < n; g++ {
+			cw.Add(1)
+			go func(g int) {
+				defer cw.Done()
+				<-start
+				out, e := c09FilledDo(filled, g%3, page)
+				mu.Lock()
+				calls++
+				if (out != wants[g%3][0] || e != wants[g%3][1]) && len(mismatches) < 20 {
+					mismatches = append(mismatches, fmt.Sprintf("cold use of a base filled with %T (call %d, %s): got %q/%v alone %q/%v", mk(), g%3, page, out, e, wants[g%3][0], wants[g%3][1]))
+				}
+				mu.Unlock()
+			}(g)
+		}
+		close(start)
+		cw.Wait()
+	}
 	return
+}
+
+type c09Typed struct {
+	A     string `json:"a"`
+	B     string `json:"b"`
+	C     int    `json:"c"`
+	D     bool   `json:"d"`
+	F     bool   `json:"f"`
+	Items []any  `json:"items"`
+}
+
+// data that is not a map[string]any: the typed-data feature of Fill (struct fields by JSON tag, typed maps)
+var c09TypedData = []func() any{
+	func() any { return c09Typed{A: "x", B: "bee", C: 3, D: true, Items: []any{"p", "q", "r"}} },
+	func() any { return &c09Typed{A: "x", B: "bee", C: 3, D: true, Items: []any{"p", "q", "r"}} },
+	func() any { return map[string]string{"a": "x", "b": "bee", "c": "3"} },
+	func() any { return map[string][]string{"items": {"p", "q"}, "extra": {"e"}} },
+}
+
+func c09FilledDo(t vuego.Template, kind int, page string) (out string, failed bool) {
+	var buf bytes.Buffer
+	var err error
+	func() {
+		defer func() {
+			if e := recover(); e != nil {
+				err = fmt.Errorf("panic: %v", e)
+			}
+		}()
+		switch kind {
+		case 0:
+			err = t.Load(page).Render(context.Background(), &buf)
+		case 1:
+			err = t.New().RenderString(context.Background(), &buf, c10Files[page])
+		case 2:
+			buf.WriteString(t.Get("a") + "|" + t.Get("b"))
+			err = t.New().RenderFile(context.Background(), &buf, page)
+		}
+	}()
+	return buf.String(), err != nil
 }
 
 var raceFuncRe = regexp.MustCompile(`(?m)^\s+(github\.com/titpetric/vuego[^\s(]*)\(`)
 
 func runC09(r *Run, replay *Case) {
 	r.Res.Rule = "N = min(cores,16) goroutines x mixed Render/RenderFile/RenderString/Vue.Render calls over the C10 catalogue (every feature) on one engine and one base template; " +
-		"variants: per-request data / shared read-only data, stable files / files rewritten underneath (cold and warm cache); every result compared with the call made alone; " +
+		"variants: per-request data / shared read-only data, stable files / files rewritten underneath (cold and warm cache); cold starts of fresh engines and of a base filled with a struct / pointer / typed map; every result compared with the call made alone; " +
 		"the same workload under the race detector; non-trivial = every concurrent call"
 	rounds := 150
 	if r.Thorough() {
